@@ -783,14 +783,32 @@ POOL_FIXED = [
 ]
 
 
+# read options vary between the reads of one history: a read must not depend on what an earlier read with
+# OTHER options left behind (caches keyed by the line only, module-level state, ...)
+KW_VARIANTS = [{}, {}, {"mnemonic_case": "preserve"}, {"mnemonic_case": "lower"}, {"engine": "normal"},
+               {"ignore_header_errors": True}, {"null_policy": "none"}, {"mnemonic_case": "preserve", "engine": "normal"}]
+POOL_MIXED_CASE = [
+    "~V\nVERS. 2.0 : v\nWRAP. NO : w\n~W\nStrt.M 1.0 : s\nStop.M 2.0 : e\nStep.M 1.0 : st\nNull. -9 : n\nComp. Acme : c\n~C\nDept.M : d\nGamma.gAPI : g\n~P\nBht.degC 80 : b\n~A\n1 -9\n2 5\n",
+    "~Version\nVers. 1.2 : v\nWrap. NO : w\n~Well\nWell. name : My Well\nFld. f : Field\n~Curve\nDepth.FT : d\nRes.ohmm : r\n~A\n1 2\n3 4\n",
+]
+GEN_TEXTS = []
+
+
 def gen_history(rng):
     pool = []
+    if not GEN_TEXTS:
+        for _ in range(16):
+            GEN_TEXTS.append(gen_las_text(rng, "any")[0])
     for _ in range(rng.randint(2, 4)):
-        if rng.random() < 0.45:
-            pool.append({"text": rng.choice(POOL_FIXED), "via": "string"})
+        r = rng.random()
+        if r < 0.35:
+            pool.append({"text": rng.choice(POOL_FIXED), "via": "string", "kw": rng.choice(KW_VARIANTS)})
+        elif r < 0.6:
+            pool.append({"text": rng.choice(POOL_MIXED_CASE), "via": rng.choice(["string", "StringIO", "path:utf-8"]),
+                         "kw": rng.choice(KW_VARIANTS)})
         else:
             via = rng.choice(["string", "string", "string", "path:utf-8", "path:bom", "path:utf-16", "StringIO"])
-            pool.append({"text": gen_las_text(rng, "any")[0], "via": via})
+            pool.append({"text": rng.choice(GEN_TEXTS), "via": via, "kw": rng.choice(KW_VARIANTS)})
     steps = []
     n = rng.randint(3, 12)
     for _ in range(n):
@@ -837,22 +855,58 @@ def history_is_nontrivial(h):
     return seen_mut
 
 
+def pool_key(entry):
+    return ("pool", entry["via"], entry["text"], json.dumps(entry.get("kw", {}), sort_keys=True))
+
+
 def pool_read(entry, idx, tmpdir):
     import lasio
     via = entry["via"]
     text = entry["text"]
+    kw = dict(entry.get("kw", {}))
     if via == "string":
-        return lasio.read(text)
+        return lasio.read(text, **kw)
     if via == "StringIO":
-        return lasio.read(io.StringIO(text))
+        return lasio.read(io.StringIO(text), **kw)
     codec = {"path:utf-8": "utf-8", "path:bom": "utf-8-sig", "path:utf-16": "utf-16"}[via]
-    p = os.path.join(tmpdir, "pool%d.las" % idx)
+    p = os.path.join(tmpdir, "pool%d_%s.las" % (idx, hashlib.sha1((via + text).encode("utf-8", "replace")).hexdigest()[:8]))
     if not os.path.exists(p):
         with open(p, "wb") as f:
             f.write(text.encode(codec))
     if via == "path:bom":
-        return lasio.read(p)
-    return lasio.read(p, encoding=codec)
+        return lasio.read(p, **kw)
+    return lasio.read(p, encoding=codec, **kw)
+
+
+def fresh_baselines(entries):
+    """What each (text, channel, options) reads as in a FRESH interpreter (nothing read before):
+    the reference every read of a history is compared with."""
+    import concurrent.futures
+    import subprocess
+    todo = {}
+    for e in entries:
+        k = pool_key(e)
+        if k not in FIRST and k not in todo:
+            todo[k] = e
+    if not todo:
+        return
+    script = os.path.join(os.path.dirname(os.path.dirname(os.path.abspath(__file__))), "fresh_read.py")
+
+    def one(item):
+        k, e = item
+        try:
+            p = subprocess.run([lib.PY, script], input=json.dumps(e), capture_output=True, text=True, timeout=120,
+                               env=dict(os.environ, PYTHONPATH=lib.REPO))
+            if p.returncode == 0 and p.stdout.startswith("OK "):
+                return k, json.loads(p.stdout[3:])
+        except Exception:
+            pass
+        return k, None
+
+    with concurrent.futures.ThreadPoolExecutor(max_workers=16) as ex:
+        for k, v in ex.map(one, list(todo.items())):
+            if v is not None:
+                FIRST[k] = v
 
 
 def apply_mutation(las, op):
@@ -942,14 +996,15 @@ def run_history(h, tmpdir):
         return las, None
 
     init_default()
+    fresh_baselines(pool)
     for si, st in enumerate(h["steps"]):
         op = st["op"]
         name, slot = op[0], op[1]
         others = [(j, dump(slots[j])) for j in range(3) if j != slot and slots[j] is not None]
         if name == "read":
             e = pool[op[2]]
-            las, bad = check_read(("pool", e["via"], e["text"]), lambda: pool_read(e, op[2], tmpdir),
-                                  "step %d read(pool[%d] via %s)" % (si, op[2], e["via"]))
+            las, bad = check_read(pool_key(e), lambda: pool_read(e, op[2], tmpdir),
+                                  "step %d read(pool[%d] via %s, %r)" % (si, op[2], e["via"], e.get("kw", {})))
             if bad:
                 return bad
             if las is not None:
@@ -990,8 +1045,8 @@ def run_history(h, tmpdir):
             return "after step %d %r a fresh LASFile() differs from the first one: %s" % (si, op, first_diff(d0, DEFAULT0[0]))
         # (iii) reading a pool text gives what its first read gave
         e = pool[st["probe"]]
-        _, bad = check_read(("pool", e["via"], e["text"]), lambda: pool_read(e, st["probe"], tmpdir),
-                            "after step %d %r: read(pool[%d] via %s)" % (si, op, st["probe"], e["via"]))
+        _, bad = check_read(pool_key(e), lambda: pool_read(e, st["probe"], tmpdir),
+                            "after step %d %r: read(pool[%d] via %s, %r)" % (si, op, st["probe"], e["via"], e.get("kw", {})))
         if bad:
             return bad
     return None
